@@ -36,6 +36,12 @@ def pick_cases(engine, seed, n):
         groups = sorted({c.get("group") for c in extra})
         for g in groups:
             sel.append([c for c in extra if c.get("group") == g][0])
+    # ... and at least three cases of every kind of case the engine plans
+    for field in ("kind", "hkind"):
+        for kv in sorted({c.get(field) for c in cases if c.get(field) is not None}):
+            have = [c for c in sel if c.get(field) == kv]
+            more = [c for c in cases if c.get(field) == kv and c not in sel]
+            sel += more[: max(0, 3 - len(have))]
     return sel
 
 
